@@ -261,6 +261,14 @@ func c07Value(g c07Getter, l, class int, before []c07Part) []byte {
 			ln := len(span) - 20 + 24
 			span[2], span[3] = byte(ln>>8), byte(ln)
 			copy(v, ref.HMACSHA1(c07Key, span))
+		case g.Attr == 0x0008 && l > 20 && l <= 24:
+			// the checker assumes a 20-byte MAC: for a 21..24-byte value its span ends after this attribute's header.
+			// A value that starts with exactly that HMAC must still be rejected (wrong size), without panicking.
+			span := c07Build(before, c07TID, 0, func(int) byte { return 0 })
+			span = append(span, 0x00, 0x08, 0x00, byte(l))
+			ln := len(span) - 20 + 24
+			span[2], span[3] = byte(ln>>8), byte(ln)
+			copy(v, ref.HMACSHA1(c07Key, span))
 		case g.Attr == 0x8028 && l == 4:
 			span := c07Build(before, c07TID, 0, func(int) byte { return 0 })
 			ln := len(span) - 20 + 8
